@@ -13,6 +13,8 @@ import OmplModel.Props.C14W
 import OmplModel.Props.C14V
 import OmplModel.Props.C14VO
 import OmplModel.Props.C14A
+import OmplModel.Props.C14E
+import OmplModel.Props.C14R
 /-!
 # C14 — Dubins curves: the reported path is a shortest candidate, reaches the goal, and `interpolate` drives it
 
